@@ -481,7 +481,11 @@ def gz_trace(tid, cfg, ops, write_plan=None):
     """ops = [(act, [runs]) | ('flush', [])]; executes on an app with compress_response=True."""
     from .httpsim import split_responses
 
+    resp = cfg.get("resp", "200")
+
     def prelude(h):
+        if resp == "204":
+            h.set_status(204)
         if cfg["ctype"] != "default":
             h.set_header("Content-Type", cfg["ctype"])
         if cfg["pre"] == "vary":
@@ -492,7 +496,7 @@ def gz_trace(tid, cfg, ops, write_plan=None):
     real_ops = [(a, [list(unrle(args[0]))]) if a in ("write", "finish") else (a, args) for a, args in ops]
     hdrs = [] if cfg["ae"] == "absent" else ["Accept-Encoding: " + cfg["ae"]]
     method = cfg.get("method", "GET")
-    c = {"method": method, "version": cfg["version"], "inm": "absent"}
+    c = {"method": method, "version": cfg["version"], "inm": "match" if resp == "304" else "absent"}
     ev, out, eof = run_program(c, real_ops, app_settings={"compress_response": True}, extra_headers=hdrs,
                                prelude=prelude, write_plan=write_plan)
     gout = geof = None
@@ -517,7 +521,7 @@ def gz_trace(tid, cfg, ops, write_plan=None):
     if gout is not None:
         obs["gout"], obs["geof"] = list(gout), bool(geof)
     ev.append({"a": "response", "args": [], "obs": obs})
-    return {"id": tid, "cfg": dict(cfg, method=method), "ev": ev}
+    return {"id": tid, "cfg": dict(cfg, method=method, resp=resp), "ev": ev}
 
 
 def _gz_job(args):
@@ -553,5 +557,5 @@ def head_vs_get(ctx, sig_fn, base_id=500000, extra_random=200):
                 ops.append(("finish", [rle(b"z" * rng.choice([0, 2000]))]))
         jobs.append((base_id + len(paths) + i + 1, cfg, ops, {}))
     traces = framework.pool_map(_gz_job, jobs)
-    ctx.validate("httpw", "Trace_Gzip", "Trace_Gzip.cfg", traces, label="head-vs-get", sig_fn=sig_fn)
+    ctx.validate("httpw", "Trace_Gzip", "Trace_Gzip.cfg", traces, label="head-vs-get", sig_fn=sig_fn, timeout=900)
     return len(traces)
